@@ -99,3 +99,18 @@ def fn_meta(contracts):
         out.append({"function": f"{mod}.{qn}", "source_sha256_16": h,
                     "extraction_drops": dropped or "type annotations, docstrings, print/warn calls"})
     return out
+
+
+def standin_task(prop, name, fn, target, desc, bound, cases=1):
+    """a bounded stand-in shared with another property's check: fn() -> None | failing-input dict (never counted as proved)"""
+    def run():
+        import time
+        from harness.core import PROVED, REFUTED
+        t0 = time.time()
+        hit = fn()
+        r = OR(id=f"{prop}.Bd.{name}", status=REFUTED if hit else PROVED, kind="Bd", role="bounded", target=target, desc=desc, bound=bound, cases=cases, seconds=time.time() - t0, backend="enumeration")
+        if hit:
+            r.replay, r.witness = hit, hit.get("input") if isinstance(hit, dict) else hit
+        return [r]
+    return Task(f"{prop}.Bd.{name}", prop, target, run)
+
